@@ -5,7 +5,7 @@ from common import Scenario, val_parse
 from bt_impl import spec_str, spec_nodes, parse_spec
 from props_bt import BtProp, Shape, parse_obs, viol, st_of, entered, yielded
 
-NAMES = ["Task~A", "task~b", "Scan^Left", "Go~~Home", "T!3", "x", "Task~C~"]
+NAMES = ["Task~A", "task~b", "Scan^Left", "Go~~Home", "T!3", "x", "Task~C~", "Rot+90", "Rot-90"]      # the last two differ only in punctuation
 
 
 def tick_line(rng, now, w=None, guards=""):
@@ -101,7 +101,7 @@ class C18(BtProp):
                 else:
                     conds = " ".join("/c%d - eq i:1" % j for j in range(k))
                 subs = " ".join(spec_str(small_subtree(rng, 100 + 10 * j)) for j in range(k))
-                header = "idiom eitheror /eo %d %s %s" % (k, conds, subs)
+                header = "idiom eitheror %s %d %s %s" % (rng.choice(["/eo", "/eo", "/x/eo", "-"]), k, conds, subs)
                 root = 1
                 OBJS = ["o{p=i:1,q=o{r=i:1}}", "o{p=i:2,q=o{r=i:0}}", "o{p=i:1,q=o{r=i:0}}", "o{p=i:0,q=o{r=i:2}}", "o{p=i:1}"]
                 if shared:
